@@ -284,6 +284,29 @@ theorem d_decorated_iterate (f : α × α → α) (m : Mask) (g : Geom α) (gv :
 /-! ## (e) the iterative scheme -/
 
 omit [IsStrictOrderedRing α] in
+/-- (e) `threshold_mask_via_arrays_jit_from`, entry by entry: the new threshold mask is `True` exactly
+    where the pixel was already masked at this level or its previous (`lower`) and current (`higher`)
+    values agree; its shape is the frame's. -/
+theorem e_threshold_mask_pointwise (fr rel : Option α) (h w : Nat) (higher lower : List α)
+    (hm : List Bool) :
+    (Impl.thresholdMask fr rel h w higher lower hm).length = h * w
+    ∧ ∀ j, j < h * w →
+        (Impl.thresholdMask fr rel h w higher lower hm)[j]?
+          = some (hm.getD j true || Spec.converged fr rel (lower.getD j 0) (higher.getD j 0)) :=
+  ⟨thresholdMask_length fr rel h w higher lower hm,
+   fun j hj => thresholdMask_get fr rel h w higher lower hm j hj⟩
+
+omit [LinearOrder α] [IsStrictOrderedRing α] in
+/-- (e) `iterated_array_jit_from`, entry by entry: a pixel takes the current level's value exactly
+    when it is `True` in the new threshold mask and was `False` in the previous one (it has just
+    converged); every other entry is left as it was. -/
+theorem e_iterated_array_pointwise (h w : Nat) (iter : List α) (tmH tmL : List Bool)
+    (higher : List α) (hl : iter.length = h * w) (j : Nat) (hj : j < h * w) :
+    (Impl.iteratedArray h w iter tmH tmL higher)[j]?
+      = some (if tmH.getD j true && !tmL.getD j true then higher.getD j 0 else iter.getD j 0) :=
+  iteratedArray_get h w iter tmH tmL higher hl j hj
+
+omit [IsStrictOrderedRing α] in
 /-- (e) **array-level loop, any table.**  Let `v ℓ i` be any table of values (level `ℓ`, flat pixel
     index `i`), and let the level array under a mask be the table with masked entries zeroed.  If the
     level-0 values of the unmasked pixels are not all zero, the loop of
